@@ -195,6 +195,13 @@ def check_input_tuples(input_data, context, preprocessor, args_for_sk_checks,
     else:
       make_error_input(201, input_data, context)
   check_tuple_size(input_data, tuple_size, context)
+  # tuple learners subtract the points of a tuple from one another, which
+  # wraps around for unsigned or narrow integer types: unless a dtype was
+  # asked for explicitly, integer tuples are converted to floats
+  if (isinstance(args_for_sk_checks['dtype'], str)
+          and args_for_sk_checks['dtype'] == 'numeric'
+          and input_data.dtype.kind in 'biu'):
+    input_data = input_data.astype(float)
   return input_data
 
 
